@@ -491,6 +491,29 @@ def long_sequence_family(ck):
     return out
 
 
+def same_name_family(ck):
+    """the same __name__ / __qualname__ in two modules: plain functions, TaskGenerators, mappers and reducers handed to map / currymap /
+    mapreduce / reduce at several steps, CompoundTask builders, Tasklet functions - and the tasks that consume them"""
+    out = []
+    for which in ('a', 'b'):
+        vs = [['twin', which, 'task', 1], ['twin', which, 'tgtask', 1], ['twin', which, 'kwtask', 2], ['twin', which, 'compound', 1],
+              ['twin', which, 'compound', 2], ['twin', which, 'tasklet', 0], ['twin', which, 'tgtasklet', 0]]
+        for fn in ('score', 'tscore'):
+            for ms in (1, 2, 3, 5):
+                vs.append(['twin', which, 'map', [fn, ms]])
+        for fn in ('pair', 'tpair'):
+            for ms in (1, 2, 3):
+                vs.append(['twin', which, 'currymap', [fn, ms]])
+        for red in ('join', 'tjoin'):
+            for mp in ('score', 'tscore'):
+                for ms, rs in ((1, 2), (2, 2), (3, 4)):
+                    vs.append(['twin', which, 'mapreduce', [red, mp, ms, rs]])
+            vs.append(['twin', which, 'reduce', [red, 2]])      # (reduce = mapreduce with map_step 4: over 5 inputs every reduce_step builds the same tree)
+        for v in vs:
+            out += [v, T('f', [v]), T('f', [], [('a', v)])]
+    return out
+
+
 def has_memory_view(spec):
     """does the spec hold an array whose memory layout is fixed by the spec ('perm') - those are always part of the tie"""
     if isinstance(spec, list):
@@ -511,7 +534,8 @@ def has_matrix(spec):
 
 def families(ck):
     fams = [('arrays', array_family(ck)), ('chains', chain_family(ck)), ('containers', mixed_family(ck)), ('exempt', exempt_family(ck)),
-            ('subclasses', subclass_family(ck)), ('memory images', memory_image_family(ck)), ('long sequences', long_sequence_family(ck))]
+            ('subclasses', subclass_family(ck)), ('memory images', memory_image_family(ck)), ('long sequences', long_sequence_family(ck)),
+            ('same names in two modules', same_name_family(ck))]
     out = []
     for name, specs in fams:
         ck.count('family:' + name, len(specs))
@@ -634,6 +658,8 @@ def run(ck):
 
 def e2e_probes():
     import collections
+    import jug.mapreduce
+    from .hashworker import TWINS as TW
     import numpy as np
     import jug
     import jug.task
@@ -663,6 +689,11 @@ def e2e_probes():
         ('axis-permuted cube', lambda: Task(f, x=np.arange(8).reshape(2, 2, 2)), lambda: Task(f, x=np.arange(8).reshape(2, 2, 2).transpose(1, 2, 0)), None),
         ('long list, one element 3 vs 3.0', lambda: Task(f, [1.5] * 300 + [3]), lambda: Task(f, [1.5] * 300 + [3.0]), None),
         ('long tuple, low bits of a big int', lambda: Task(f, x=(0.5,) * 256 + (2 ** 53,)), lambda: Task(f, x=(0.5,) * 256 + (2 ** 53 + 1,)), None),
+        ('same-named TaskGenerator mappers from two modules (map)', lambda: Task(f, jug.mapreduce.map(TW['a'].tscore, [1, 2, 3], map_step=2)),
+         lambda: Task(f, jug.mapreduce.map(TW['b'].tscore, [1, 2, 3], map_step=2)), None),
+        ('same-named TaskGenerator mappers from two modules (currymap)', lambda: Task(f, jug.mapreduce.currymap(TW['a'].tpair, [(1, 2), (3, 4)], map_step=2)),
+         lambda: Task(f, jug.mapreduce.currymap(TW['b'].tpair, [(1, 2), (3, 4)], map_step=2)), None),
+        ('same-named functions from two modules', lambda: Task(TW['a'].score, 1), lambda: Task(TW['b'].score, 1), None),
         ('byte order', lambda: Task(f, np.zeros(2, dtype='<i4')), lambda: Task(f, np.zeros(2, dtype='>i4')), None),
         ('tasklet chain, inner operation', lambda: Task(f, Task(f, 0)[0][1]), lambda: Task(f, Task(f, 0)[1][1]), None),
         ('tasklet chain, length', lambda: Task(f, Task(f, 0)[1][1]), lambda: Task(f, Task(f, 0)[1]), None),
